@@ -18,8 +18,27 @@ import (
 // against LenLaws. S ranges over printed SchemaText projects, JsonGen documents, root forms and the corpus.
 
 type lenCase struct {
-	S string `json:"s"`
-	T string `json:"t"`
+	S    string   `json:"s"`
+	T    string   `json:"t"`
+	Warm []string `json:"warm,omitempty"` // call prefix (SchemaApi_orders) answered by every object before its Len()
+	// Before lets another schema text be measured first in the same process (texts that stop in every lexical state):
+	// whatever the library keeps between calls, Len() of the next text is a function of that text
+	Before string `json:"before,omitempty"`
+}
+
+// texts that end while a literal, a reference, a choice, a string, an annotation or a comment is still open
+var lenOpenEnded = []string{`{"id": @catId`, `[1, @a`, `"abc`, `12`, `{"a": 1 // note`, `@a |`, `tru`, `1.`, `{"k": "v`, `1 /* x`, `1 # c`, `{"a": 1,`, `[`, `-`, `{"a"`, `@`, "1 // {min: 1", `{"a": @b}`, `"done"`}
+
+// lenOf is Len() of a new object with the text, after the object has answered the call prefix.
+func lenOf(text string, warm []string) (uint, error) {
+	s := jschema.New("root", text)
+	if len(warm) > 0 {
+		for n, t := range model.SupportTypes {
+			_ = s.AddType(n, jschema.New(n, t))
+		}
+		_ = warmUp(s, warm)
+	}
+	return s.Len()
 }
 
 type lenObs struct {
@@ -57,8 +76,15 @@ func lenObserve(cs lenCase) (o *lenObs, panicked string) {
 			panicked = fmt.Sprint(r)
 		}
 	}()
-	n, err := jschema.New("root", cs.S).Len()
+	if cs.Before != "" {
+		_, _ = jschema.New("before", cs.Before).Len()
+	}
+	n, err := lenOf(cs.S, cs.Warm)
 	if err != nil {
+		// a text Check() accepts has an end: Len() may only fail where Check() refuses
+		if vs, _ := lenVerdictAST(cs.S); vs == "accepted" {
+			return &lenObs{Slen: len(cs.S), Len: -1, Vs: vs, Vp: "len-error: " + firstLineOf(err)}, ""
+		}
 		return nil, ""
 	}
 	if n == 0 {
@@ -81,7 +107,7 @@ func lenObserve(cs lenCase) (o *lenObs, panicked string) {
 		// the prefix law is demanded of accepted S and of rejected S that Len() covers entirely
 		o.Vp, o.AstEq = o.Vs, true
 	}
-	np, err := jschema.New("root", prefix).Len()
+	np, err := lenOf(prefix, cs.Warm)
 	o.Lenp = int(np)
 	if err != nil {
 		o.Lenp = -1
@@ -93,7 +119,7 @@ func lenObserve(cs lenCase) (o *lenObs, panicked string) {
 		lastLine = cs.S[i+1:]
 	}
 	o.Complete = vs == "accepted" && (!strings.Contains(lastLine, "#") || strings.HasSuffix(cs.S, "\n") || strings.HasSuffix(cs.S, "\r"))
-	nst, err := jschema.New("root", cs.S+"\n"+cs.T).Len()
+	nst, err := lenOf(cs.S+"\n"+cs.T, cs.Warm)
 	o.Lenst = int(nst)
 	if err != nil {
 		o.Lenst = -1
@@ -103,6 +129,8 @@ func lenObserve(cs lenCase) (o *lenObs, panicked string) {
 
 func lenClass(cs lenCase, o *lenObs) string {
 	switch {
+	case o.Len < 0:
+		return "len:error-on-accepted-schema"
 	case o.Len > o.Slen:
 		return "len:exceeds-text"
 	case o.Vs != o.Vp || !o.AstEq:
@@ -174,6 +202,22 @@ func runC15(c *core.Ctx) error {
 			cases = append(cases, lenCase{S: s, T: ts[i]})
 		}
 	}
+	// SchemaApi.tla: Len() is a function of the text. Every third observation is also made with objects that have
+	// answered a call prefix first (SchemaApi_orders.cfg); the laws are the same
+	if _, err := loadCallOrders(); err != nil {
+		return err
+	}
+	nplain := len(cases)
+	for i := 0; i < nplain; i += 3 {
+		w := cases[i]
+		w.Warm = callPrefix(i, c.Seed)
+		cases = append(cases, w)
+	}
+	for i := 1; i < nplain; i += 4 {
+		w := cases[i]
+		w.Before = lenOpenEnded[(i/4)%len(lenOpenEnded)]
+		cases = append(cases, w)
+	}
 	lines := make([][]byte, len(cases))
 	keep := make([]bool, len(cases))
 	core.ParallelFor(len(cases), func(i int) {
@@ -195,7 +239,7 @@ func runC15(c *core.Ctx) error {
 		if keep[i] {
 			tl = append(tl, lines[i])
 			idx = append(idx, i)
-			c.Nontrivial(cases[i].S + "\x00" + cases[i].T)
+			c.Nontrivial(cases[i].S + "\x00" + cases[i].T + "\x00" + strings.Join(cases[i].Warm, ",") + "\x00" + cases[i].Before)
 		}
 	}
 	bad, res, err := tlc.ValidateTrace("LenLaws", "LenLaws.cfg", tl, nil)
